@@ -118,6 +118,8 @@ class SqliteStorage(AbstractStorage):
             from aw_datastore import check_for_migration  # fmt: skip
 
             check_for_migration(self)
+            # what the migration copied must not sit in an open transaction that nothing counts
+            self.commit()
 
         self.last_commit = datetime.now()
         self.num_uncommitted_statements = 0
